@@ -233,6 +233,12 @@ def vmdk_delta(rng, ctx, depth: int = 2, parent_config: str = "samedir", child_k
                 raise ValueError(cfg)
             if is_top and child_kind == "embedded":
                 desc = wvmdk.descriptor_text([f'RW {cap} SPARSE "{name}"'], cid="bbbbbbbb", parent_cid="aaaaaaaa", parent_hint=hint)
+                if rng.random() < 0.4:
+                    # the descriptor was rewritten in place when the snapshot was taken: behind its terminating NUL the tail of
+                    # the longer text it replaced (a disk without a parent) is still there; the text ends at the NUL
+                    old = wvmdk.descriptor_text([f'RW {cap} SPARSE "{name}"'], cid="aaaaaaa9", parent_cid="ffffffff", extra={"vf.note": "n" * 80})
+                    old = "# " + "-" * len(desc) + "\n" + old  # (it began with a long banner)
+                    desc = desc + "\0" + old[len(desc) + 1 + rng.randrange(0, 3):]
                 sf, layer, meta = wvmdk.build_hosted(rng, capacity=cap, grain=grain, ngte=ngte, states=st, placement="shuffle", tag=tag, descriptor=desc)
                 sf.write_to(here / name)
             elif is_top and child_kind == "multi":
@@ -549,11 +555,15 @@ def vdi_parent(rng, ctx, depth: int = 2) -> Opened:
         if level == 0 and rng.random() < 0.4:
             lbs = 512  # the base may use a different block size than its children
             ln = n * bs // lbs
+        elif level < depth - 1 and rng.random() < 0.35:
+            # ... or a larger one: an absent block of the child then lies somewhere in the middle of a block of this layer
+            lbs = bs * rng.choice([2, 4, 16])
+            ln = -(-n * bs // lbs)
+            states = [rng.choice("AAUZ" if level == 0 else "AUZ") for _ in range(ln)]
         else:
             states = [rng.choice("AUZ" if level else "AAUZ") for _ in range(n)]
         sf, layer, meta = wvdi.build(rng, block_size=lbs, nblocks=ln, states=states, placement="shuffle", tag=rng.getrandbits(48))
-        if size is None:
-            size = meta["size"]
+        size = meta["size"]  # the disk is as large as its topmost image says
         v = VDI(as_handle(sf.to_bytes()), parent=below) if below is not None else VDI(as_handle(sf.to_bytes()))
         layers.insert(0, layer)
         below = v
